@@ -95,6 +95,10 @@ class CutWhile:
                 return
             except _Continue:
                 continue
+        # the loop may not be entered at all from the state reached so far: then nothing is cut
+        t0 = ip.eval(node.test, fr)
+        if (isinstance(t0, bool) and not t0) or (not isinstance(t0, bool) and hasattr(t0, 't') and not st.can(t0.t)):
+            return
         for lab, goal, exact in self.inv(ip, fr):
             st.oblige('%s#initiation:%s' % (tag, lab), goal, exact=exact)
         self.havoc(ip, fr)
@@ -112,3 +116,57 @@ class CutWhile:
             st.oblige('%s#preservation:%s' % (tag, lab), goal, exact=exact)
         st.oblige('%s#variant-decreases' % tag, I(self.variant(ip, fr)) < I(v0))
         raise CutPath()
+
+
+class CutSeqFor:
+    """for <target> in <abstract sequence>: an invariant over the *remaining*
+    elements (a ghost suffix `rem`), one cut for an arbitrary iteration
+    (rem non-empty: body, then the invariant for tail(rem)) and one for the exit
+    (rem empty).  The variant is the length of rem.
+
+    seq_of(ip, iterable) -> Obj term of the whole sequence (None: not applicable, undecided)
+    bind(ip, rem) -> value bound to the loop target for the first element of rem
+    havoc(ip, fr, rem): install the state the invariant describes for `rem`
+    inv(ip, fr, rem) -> [(label, goal, exact)]
+    """
+
+    def __init__(self, seq_of, bind, havoc, inv, doc=''):
+        self.seq_of = seq_of
+        self.bind = bind
+        self.havoc = havoc
+        self.inv = inv
+        self.doc = doc
+
+    def run_for(self, ip, node, fr, iterable):
+        import z3
+        from .interp import _Continue, _Break
+        from .sym import ObjS
+        from spec import wire
+        st = ip.st
+        seq = self.seq_of(ip, iterable)
+        if seq is None:
+            raise OutOfSubset('loop annotation does not apply to this iterable')
+        tag = 'loop@%d' % node.lineno
+        wire.seq_facts(st, seq)
+        for lab, goal, exact in self.inv(ip, fr, seq):
+            st.oblige('%s#initiation:%s' % (tag, lab), goal, exact=exact)
+        rem = st.fresh('remaining', ObjS)
+        wire.seq_facts(st, rem)
+        if st.branch(st.fresh_bool('segment'), 'cut:%s:some-iteration' % tag):
+            st.assume(z3.Not(wire.seq_nil(rem)))
+            self.havoc(ip, fr, rem)
+            ip.assign(node.target, self.bind(ip, rem), fr)
+            try:
+                ip.exec_block(node.body, fr)
+            except _Continue:
+                pass
+            except _Break:
+                raise OutOfSubset('break inside a cut loop')
+            nxt = wire.seq_tail(rem)
+            wire.seq_facts(st, nxt)
+            for lab, goal, exact in self.inv(ip, fr, nxt):
+                st.oblige('%s#preservation:%s' % (tag, lab), goal, exact=exact)
+            st.oblige('%s#variant-decreases' % tag, z3.And(wire.seq_len(nxt) < wire.seq_len(rem), wire.seq_len(rem) >= 0))
+            raise CutPath()
+        st.assume(wire.seq_nil(rem))
+        self.havoc(ip, fr, rem)
